@@ -21,6 +21,7 @@ static const fam_t FAMS[] = {
   {"baddims", fam_baddims},
   {"threads", fam_threads},
   {"omp", fam_omp},
+  {"prog", fam_prog},
   {NULL, NULL}};
 
 static void cfg_event(void) {
